@@ -571,7 +571,7 @@ func H_C15_datastream() {
 func H_C15_frame()              { vC15Frame([]int{1, 0, 4}, false, 0) }
 func H_C15_frame_deep()         { vC15Frame([]int{1, 5, 0, 4}, false, 2) }
 func H_C15_frame_stray()        { vC15Frame([]int{1}, true, 0) }
-func H_C15_frame_stray_resume() { vC15Frame([]int{1, 5}, true, 1) }
+func H_C15_frame_stray_resume() { vC15Frame([]int{1}, true, 1) }
 
 // resumeMode: 0 off, 1 on, 2 either
 func vC15Frame(sizes []int, stray bool, resumeMode int) {
